@@ -185,31 +185,47 @@ func (u *upstream) chooseHost(routingKey []byte, req *simpleRequest) (string, er
 }
 
 func (u *upstream) MakeRequestToHost(addr string, req *simpleRequest) {
+	u.makeRequestsToHost(addr, req)
+}
+
+// makeRequestsToHost sends the requests to the given host back to back, no
+// request of another sender is placed between them.
+func (u *upstream) makeRequestsToHost(addr string, reqs ...*simpleRequest) {
 	// request metrics
-	u.stats.RqTotal.Inc()
-	req.RegisterHook(func(req *simpleRequest) {
-		if req.Response().Type == Error {
-			u.stats.RqFailureTotal.Inc()
-		} else {
-			u.stats.RqSuccessTotal.Inc()
-		}
-		u.stats.RqDurationMs.Record(uint64(req.Duration() / time.Millisecond))
-	})
+	for _, req := range reqs {
+		u.stats.RqTotal.Inc()
+		req.RegisterHook(func(req *simpleRequest) {
+			if req.Response().Type == Error {
+				u.stats.RqFailureTotal.Inc()
+			} else {
+				u.stats.RqSuccessTotal.Inc()
+			}
+			u.stats.RqDurationMs.Record(uint64(req.Duration() / time.Millisecond))
+		})
+	}
 
 	select {
 	case <-u.quit:
-		req.SetResponse(newError(upstreamExited))
+		for _, req := range reqs {
+			req.SetResponse(newError(upstreamExited))
+		}
 		return
 	default:
 	}
 
 	c, err := u.getClient(addr)
 	if err != nil {
-		req.SetResponse(newError(err.Error()))
+		for _, req := range reqs {
+			req.SetResponse(newError(err.Error()))
+		}
 		return
 	}
 	// TODO: detect client status
-	c.Send(req)
+	if len(reqs) == 1 {
+		c.Send(reqs[0])
+		return
+	}
+	c.SendBatch(reqs...)
 }
 
 func (u *upstream) getClient(addr string) (*client, error) {
@@ -333,8 +349,9 @@ func (u *upstream) handleRedirection(req *simpleRequest, resp *RespValue) {
 		askingReq := newSimpleRequest(newArray(
 			*newBulkString(ASKING),
 		))
-		u.MakeRequestToHost(hostAddr, askingReq)
-		u.MakeRequestToHost(hostAddr, req)
+		// NOTE: ASKING only covers the very next command of the connection, so
+		// the two requests must not be separated by other traffic.
+		u.makeRequestsToHost(hostAddr, askingReq, req)
 	}
 	u.triggerSlotsRefresh()
 }
@@ -630,6 +647,24 @@ func (c *client) Send(req *simpleRequest) {
 	default:
 		verifpoint.HitArg("redis.client.send.before-enqueue", c)
 		// NOTE: the queue may be full while the writer has already gone.
+		select {
+		case c.pendingReqs <- req:
+		case <-c.quit:
+			req.SetResponse(newError(backendExited))
+		}
+	}
+}
+
+// SendBatch enqueues the requests back to back.
+func (c *client) SendBatch(reqs ...*simpleRequest) {
+	// the write lock keeps the (read locked) senders of single requests out.
+	c.sendMu.Lock()
+	defer c.sendMu.Unlock()
+	for _, req := range reqs {
+		if c.closed {
+			req.SetResponse(newError(backendExited))
+			continue
+		}
 		select {
 		case c.pendingReqs <- req:
 		case <-c.quit:
